@@ -106,7 +106,12 @@ var garbageLines = []string{"", " ", "HEL", "QUI", "FOO bar", "HELLO", "SEND x",
 	"DATA now", "RCPT", "RCPT T", "RCPT TO", "RCPT FROM:<a@b.com>", "MAIL", "MAIL TO:<a@b.com>", "MAIL FROM:a@b.com", "MAIL FROM:<a@b.com> SIZE=",
 	"MAIL FROM:<a@b.com> FOO", "STARTTLS", "AUTH PLAIN", "AUTH PLAIN abc", "AUTH PLAIN a b", "AUTH CRAM-MD5", "AUTH plain x",
 	"\xc5\xbfEND x", "QU\xc4\xb1T", "MA\xc4\xb1L FROM:<a@b.com>", "\xff\xfe\x00\x01binary", "RSET", "RSET extra", "HELO", "EHLO", "HELO  two words",
-	"   leading", "DATA", "QUIT now"}
+	"   leading", "DATA", "QUIT now",
+	"MAIL FROM:<\"a>b\"@c.org>", "MAIL FROM:<a\\>b@c.org>", "MAIL FROM:<a@b.org> AUTH=<>", "MAIL FROM:<a@b.org> SIZE=<>", "MAIL FROM:<a@b.org> SIZE=5 SIZE=99999999",
+	"MAIL FROM:<a@b.org> size=7 Size=8", "MAIL FROM:<a@b.org>  SIZE=5", "MAIL FROM:<a@b.org> SIZE=5 ", "MAIL FROM:<a@b.org> X", "MAIL FROM:<a@b.org> X=1 garbage",
+	"MAIL FROM:<a@b.org>>", "MAIL FROM:<<a@b.org>", "MAIL FROM:<a@b.org", "MAIL FROM:\t <a@b.org>", "MAIL FROM:<\u212a@b.org>", "MAIL \u017from:<a@b.org>",
+	"MAIL FROM:<\"q\"@b.org> BODY=8BITMIME SIZE=12", "MAIL FROM:<a@b.org> =<>", "MAIL FROM:<> SIZE=0", "MAIL FROM:<@r1,@r2:u@h.org>", "MAIL FROM:<a@[127.0.0.1]>",
+	"MAIL FROM:<a@[IPv6:::1]>", "MAIL FROM:<a@b.org> K\u212a=1", "MAIL FROM:<a b@c.org>", "MAIL FROM:<\xff\xfe@b.org>", "MAIL FROM:<a@b.org> SIZE=2147483647", "MAIL FROM:<a@b.org> SIZE=-1"}
 
 func genBody(g *vh.Gen, o Opts, from string, tos []string) []string {
 	var ls []string
